@@ -171,7 +171,7 @@ pub fn literal_grammar(full: bool) -> Vec<String> {
     let bi = bound_ints();
     let _ = full;
     ints.extend(bi);
-    let fracs = ["", ".", ".0", ".4", ".49999", ".4999999999999999999", ".5", ".50", ".500000000000000001", ".6", ".9"];
+    let fracs = ["", ".", ".0", ".4", ".49999", ".49999999", ".4999999999", ".4999999999999999999", ".5", ".50", ".50000001", ".500000000000000001", ".6", ".9"];
     let exps = ["", "E0", "e+0", "E1", "E-1", "E2", "e-2", "E18", "E19", "E20", "E-400", "E400"];
     let mut out = vec![];
     for s in signs {
@@ -438,7 +438,7 @@ pub fn run(ctx: &'static Ctx) -> i32 {
     let mut c = cov();
     c.insert("evaluations".into(), json!(acc.evals));
     c.insert("distinct_nontrivial".into(), json!(acc.near_bound_or_half));
-    c.insert("rule".into(), json!(format!("literal grammar sign x integer part x fraction x exponent ({nl} literals: signs none/+/-; integer parts '',0,00,1,7,12 and every type bound -1/+0/+1/+2; fractions none, '.', .0, .4, .49999, .4999999999999999999, .5, .50, .500000000000000001, .6, .9; exponents none, E0, e+0, E1, E-1, E2, e-2, E18, E19, E20, E-400, E400; plus bounds written with shifted decimal points) and every NRf literal among the {ns} strings of length <= {n} over `+-0159.E`, x 10 integer targets + bool, through TryFrom<Token> and through Parameters::next_data in a real message; plus non-decimal literals (#H/#Q/#B of 0, 1, every bound, bound+1, 2^64-1, 2^64), MIN/MAX keywords in 8 spellings, near-miss keywords and every other element type. Oracle: exact decimal arithmetic (refmodel/decnum.rs): Ok(r) requires |r - x| <= 1/2 + delta, where delta is the distance from x to the farther of the two adjacent floats of the intermediate type that bracket it (0 if x is representable or the spelling is plain NR1); -222 requires that some such integer is unrepresentable. Distinct non-trivial = literals at a half-integer or next to a type bound")));
+    c.insert("rule".into(), json!(format!("literal grammar sign x integer part x fraction x exponent ({nl} literals: signs none/+/-; integer parts '',0,00,1,7,12 and every type bound -1/+0/+1/+2; fractions none, '.', .0, .4, .49999, .49999999, .4999999999, .4999999999999999999, .5, .50, .50000001, .500000000000000001, .6, .9; exponents none, E0, e+0, E1, E-1, E2, e-2, E18, E19, E20, E-400, E400; plus bounds written with shifted decimal points) and every NRf literal among the {ns} strings of length <= {n} over `+-0159.E`, x 10 integer targets + bool, through TryFrom<Token> and through Parameters::next_data in a real message; plus non-decimal literals (#H/#Q/#B of 0, 1, every bound, bound+1, 2^64-1, 2^64), MIN/MAX keywords in 8 spellings, near-miss keywords and every other element type. Oracle: exact decimal arithmetic (refmodel/decnum.rs): Ok(r) requires |r - x| <= 1/2 + delta, where delta is the distance from x to the farther of the two adjacent floats of the intermediate type that bracket it (0 if x is representable or the spelling is plain NR1); -222 requires that some such integer is unrepresentable. Distinct non-trivial = literals at a half-integer or next to a type bound")));
     c.insert("exhaustive".into(), json!(true));
     c.insert("conversions_ok".into(), json!(acc.ok_values));
     c.insert("conversions_range_error".into(), json!(acc.range_errors));
